@@ -1,10 +1,37 @@
 /-
-C13 — NETWORK_ACK: awaited only when needed, sent once, believed only if received (statements in progress).
+C13 — "NETWORK_ACK: awaited only when needed, sent once, believed only if received."
+
+For a single-frame unicast message whose type is in 65..191 and whose route has at least one
+intermediate node, write() returns True only if a NETWORK_ACK addressed to the sender arrived
+within route_timeout after the frame was accepted by the first hop, and False otherwise, never
+blocking longer than the transmit and route timeouts allow.  The node that delivers such a frame to
+its final destination sends exactly one NETWORK_ACK back to the origin for it.  Messages of other
+types, transmissions between direct neighbours, multicasts and NETWORK_ACKs themselves never cause
+a NETWORK_ACK.
+
+Model: `NrfModel/Net/Node.lean` (`nodeWrite` = `_write`, `ackWait` = its wait loop, `netUpdate` =
+`_net_update`, `handleThis` / `handleOther`).  Spec: `NrfModel/Spec/NetAck.lean` (`AckAction`,
+`originRule`, `forwarderRule`, `ackCont`) over the address tree of `Spec/Tree.lean`.
+
+* `C13_when_*`   the decision logic, stated outright: one step of `nodeWrite` for every fuel and
+                 state (`C13_when_step`), and the meaning of the decision on the tree via C04
+                 (`C13_when_meaning`), all 256 types by arithmetic.
+* `C13_once`     along the tree route exactly one node emits — the one before the destination —
+                 and none does on a one-hop route.
+* `C13_believed*` safety for every fuel, world, arrival script, fault list and behaviour of the other
+                 nodes: `True` only if a type-193 frame for this node was read in the wait loop, in
+                 a `_net_update()` call begun no later than the deadline; `False` only after the
+                 deadline.
+* `C13_live_partial` closed system, loss-free, two hops: see the end of the file.
 -/
-import NrfModel.Net.Api
+import NrfProofs.C13Ack
+import NrfProofs.C13Trace
+import NrfProofs.C13Example
+import NrfProofs.C13Live
+import NrfProofs.C05Example3
 
 namespace Nrf.Props.C13
-open Nrf Nrf.Net
+open Nrf Nrf.Net Nrf.Spec Nrf.Proofs Nrf.Props.C04
 
 /-- `is_ack_type()` holds exactly for the integer types 65..191 — for all 256 wire types and beyond -/
 theorem C13_is_ack_type (f : Frame) (t : Nat) (h : f.header.msgType = .int t) :
@@ -14,5 +41,383 @@ theorem C13_is_ack_type (f : Frame) (t : Nat) (h : f.header.msgType = .int t) :
   simp only [pure, Except.pure]
   congr 1
   by_cases h1 : 64 < t <;> by_cases h2 : t < 192 <;> simp [h1, h2] <;> omega
+
+example : (⟨{ msgType := .int 65 }, []⟩ : Frame).isAckType = .ok true ∧
+    (⟨{ msgType := .int 193 }, []⟩ : Frame).isAckType = .ok false := ⟨rfl, rfl⟩
+
+/-! ## when: the decision of `_write` -/
+
+/-- **One step of `_write(write_direct, send_type)`**, for every fuel, every state in which the
+    running node is on the call stack, every integer message type `t` in `frame_buf`:
+    the frame is handed to the hop `_logi_2_phys` names (after a 2 ms pause at the last router of
+    an acknowledged type); an exception there ends the call; otherwise, with `result` the verdict
+    of that transmission and `s1` the state it left, the call continues with exactly the
+    continuation `ackCont` of the **pure decision** `ackAction` (node constants, type,
+    `write_direct`, `send_type`, origin of the frame) — `emit`: the header is rewritten to type 193
+    / `to := from`, one `_write_to_pipe` towards `_logi_2_phys(from, TX_ROUTED)`, listening restored,
+    `result` returned; `await`: listening and auto-ack restored, the wait loop with deadline
+    `now + route_timeout·10⁶`, its Boolean returned; `none`: listening (and auto-ack unless
+    multicast) restored, `result` returned — and with `result = False` always `none`. -/
+theorem C13_when_step (f wd st : Nat) (s : NetState) (t : Nat) (hs : s.cur ∈ s.active)
+    (ht : s.node.frameBuf.header.msgType = .int t) :
+    nexec (nodeWrite (f + 1) wd st) s =
+      match nexec (nodeWriteToPipe f (logi2phys s.node.a wd st).1 (logi2phys s.node.a wd st).2.1
+          (logi2phys s.node.a wd st).2.2) (writePrelude s t wd st) with
+      | (.error e, s1) => (.error e, s1)
+      | (.ok result, s1) =>
+        nexec (ackCont f (if result then ackAction s.node.a t wd st s1.node.frameBuf.header.fromNode
+                          else .none) result (logi2phys s.node.a wd st).2.2) s1 := by
+  rw [nodeWrite_step_raw f wd st s t ht]
+  rcases hw : nexec (nodeWriteToPipe f _ _ _) (writePrelude s t wd st) with ⟨r, s1⟩
+  cases r with
+  | error e => rfl
+  | ok result =>
+    simp only []
+    have hp : (writePrelude s t wd st).cur ∈ (writePrelude s t wd st).active := by
+      unfold writePrelude; split <;> exact hs
+    have hn : (writePrelude s t wd st).node = s.node := by
+      unfold writePrelude; split <;> rfl
+    have r1 : Rel Node.stat (writePrelude s t wd st) s1 :=
+      ((frameAt f).nodeWriteToPipe _ _ _).out _ _ s1 hp hw
+    have ha : s1.node.a = s.node.a := by rw [(stat_addr r1).1, hn]
+    rw [ha]
+    rfl
+
+example : let s : NetState := { nodes := [{}], active := [0], w := World.fresh 1 }
+    s.cur ∈ s.active ∧ s.node.frameBuf.header.msgType = .int 0 := by decide
+
+/-- a `str` message type: `is_ack_type()` raises `TypeError` before anything is sent or changed -/
+theorem C13_when_str (f wd st : Nat) (s : NetState) (cs : List Nat)
+    (ht : s.node.frameBuf.header.msgType = .str cs) :
+    nexec (nodeWrite (f + 1) wd st) s = (.error .typeError, s) :=
+  nodeWrite_str f wd st s cs ht
+
+example : let s : NetState := { nodes := [{ frameBuf := ⟨{ msgType := .str [84] }, []⟩ }], w := World.fresh 1 }
+    s.node.frameBuf.header.msgType = .str [84] := by decide
+
+/-- **The meaning of the decision on the address tree** (C04: `_begin` of a tree node `x` yields
+    `nodeSpec x`, `_logi_2_phys` is the tree's next hop).  For all tree nodes and all types `t`
+    (all 256 and beyond — the statement is arithmetic):
+    * the origin of a frame for `d` (`TX_NORMAL`) awaits iff `65 ≤ t ≤ 191` and its first hop is not
+      `d`, and never emits;
+    * a forwarder `x` of a frame from `s` for `d` (`TX_ROUTED`) emits iff `65 ≤ t ≤ 191`, its hop
+      delivers to `d`, and the frame is not its own; it never awaits;
+    * `TX_PHYSICAL`, `TX_LOGICAL`, `TX_MULTICAST` (send types above `TX_ROUTED`: the "hop" is the given
+      address itself): nothing — in particular the `TX_LOGICAL` alternative in the code's wait
+      condition can never fire;
+    * types outside 65..191 — NETWORK_ACK (193) itself included: nothing. -/
+theorem C13_when_meaning (x d : List Nat) (hx : IsNode x) (hd : IsNode d) (t : Nat) :
+    (∀ fr, ackAction (nodeSpec x) t (val d) TX_NORMAL fr = originRule x d t) ∧
+    (∀ s, IsNode s → ackAction (nodeSpec x) t (val d) TX_ROUTED (val s) = forwarderRule x s d t) ∧
+    (∀ n wd st fr, st > TX_ROUTED → ackAction n t wd st fr = .none) ∧
+    (¬ AckType t → ∀ n wd st fr, ackAction n t wd st fr = .none) ∧ ¬ AckType NETWORK_ACK :=
+  ⟨fun fr => ackAction_origin hx hd t fr, fun _ hs => ackAction_forwarder hx hs hd t,
+   fun n wd _ fr h => ackAction_direct h n t wd fr, fun h n wd st fr => ackAction_not_ackType h n wd st fr,
+   by decide⟩
+
+example : IsNode [3, 2, 1] ∧ IsNode [4] ∧ originRule [3, 2, 1] [4] 65 = .await ∧
+    originRule [3, 2, 1] [3, 2] 65 = .none ∧ originRule [3, 2, 1] [4] 64 = .none ∧
+    forwarderRule [] [3, 2, 1] [4] 191 = .emit ∧ forwarderRule [3] [3, 2, 1] [4] 191 = .none ∧
+    forwarderRule [] [3, 2, 1] [4] 193 = .none ∧ TX_LOGICAL > TX_ROUTED := by decide
+
+/-! ## once: who emits along a route -/
+
+/-- the send type a node of the route uses: the origin `TX_NORMAL`, every forwarder `TX_ROUTED` -/
+def roleSendType (i : Nat) : Nat := if i = 0 then TX_NORMAL else TX_ROUTED
+
+/-- Along the tree route from `s` to `d` (node `i` = the position after `i` hops, C04), for a type
+    in 65..191: node `i < dist s d` decides to emit a NETWORK_ACK iff it is the node before `d` and
+    not the origin.  Hence exactly one node emits on a route of two or more hops — the last router —
+    and none on a one-hop route. -/
+theorem C13_once (s d : List Nat) (hs : IsNode s) (hd : IsNode d) (t : Nat) (ht : AckType t) :
+    (∀ i, i < dist s d →
+      (ackAction (nodeSpec (hops i s d)) t (val d) (roleSendType i) (val s) = .emit
+        ↔ (i + 1 = dist s d ∧ 1 ≤ i))) ∧
+    (List.range (dist s d)).filter (fun i =>
+        decide (ackAction (nodeSpec (hops i s d)) t (val d) (roleSendType i) (val s) = .emit))
+      = if 2 ≤ dist s d then [dist s d - 1] else [] := by
+  have key : ∀ i, i < dist s d →
+      (ackAction (nodeSpec (hops i s d)) t (val d) (roleSendType i) (val s) = .emit
+        ↔ (i + 1 = dist s d ∧ 1 ≤ i)) := by
+    intro i hi
+    have hx := isNode_hops hs hd i
+    unfold roleSendType
+    by_cases h0 : i = 0
+    · subst h0
+      rw [if_pos rfl, ackAction_origin hx hd]
+      unfold originRule
+      constructor
+      · intro h; split at h <;> cases h
+      · intro h; omega
+    · rw [if_neg h0, ackAction_forwarder hx hs hd]
+      unfold forwarderRule
+      simp only [nextHop_hops_eq_dest hi]
+      have hne : s ≠ hops i s d := fun e => hops_ne_origin (by omega) (by omega) e.symm
+      constructor
+      · intro h
+        split at h
+        · rename_i hc; exact ⟨hc.2.1, by omega⟩
+        · cases h
+      · intro h
+        rw [if_pos ⟨ht, h.1, hne⟩]
+  refine ⟨key, ?_⟩
+  split
+  · rename_i h2
+    apply filter_range_single _ _ _ (by omega)
+    intro i hi
+    rw [decide_eq_true_iff, key i hi]
+    omega
+  · rename_i h2
+    apply filter_range_none
+    intro i hi
+    rw [decide_eq_false_iff_not, key i hi]
+    omega
+
+example : IsNode [4, 2, 1] ∧ IsNode [3] ∧ AckType 100 ∧ dist [4, 2, 1] [3] = 4 ∧
+    hops 3 [4, 2, 1] [3] = [] ∧ dist [4] [] = 1 := by decide
+
+/-! ## believed: where a `True` comes from -/
+
+/-- The ghost instrumentation used below is faithful: `netUpdateT` / `ackWaitT` (which also return
+    what their own loops read from the radio, and when) have, for every fuel, state and outcome,
+    the result and final state of `netUpdate` (`_net_update()`) / `ackWait` (the wait loop). -/
+theorem C13_believed_faithful (f x : Nat) (s : NetState) :
+    nexec (netUpdate f x) s = eraseT (nexec (netUpdateT f x) s) ∧
+    nexec (ackWait f x) s = eraseT (nexec (ackWaitT f x) s) :=
+  ⟨netUpdate_erase f x s, ackWait_erase f x s⟩
+
+/-- `_net_update()` returns NETWORK_ACK only if, **in that call**, it read from the radio a
+    well-formed frame of type 193 with valid addresses that it took as meant for this node
+    (`IsAckFor`: `to_node` = this node's address; or — the code's two side doors — `to_node` = the
+    multicast address `0o100` while `allow_multicast`, or the node still has the default address
+    `0o4444`).  Every fuel, world, arrival script, fault list, behaviour of other nodes. -/
+theorem C13_believed_update (f rv : Nat) (s s' : NetState) (reads : List Bytes)
+    (hs : s.cur ∈ s.active) (hrv : rv ≠ NETWORK_ACK)
+    (h : nexec (netUpdateT f rv) s = (.ok (NETWORK_ACK, reads), s')) :
+    ∃ b ∈ reads, IsAckFor s.node.a.addr s.node.cfg.allowMulticast b :=
+  netUpdateT_ack f rv s s' reads hs hrv h
+
+example : IsAckFor 0 true Example.ackFrame :=
+  ⟨⟨⟨1, 0, 0, .int 193, 0⟩, []⟩, fun _ => rfl, Example.isValid_0, Example.isValid_1, rfl, Or.inl rfl⟩
+
+/-- **The wait loop of `_write`.**  Whenever it returns normally (`obs` = the record of its
+    `_net_update()` calls): the calls are consecutive from entry to return; every call but the last
+    returned something else than 193, no later than the deadline; the loop says `True` only if the
+    last call returned 193, having read in that call a NETWORK_ACK frame for this node; it says
+    `False` only if the last call ended after the deadline.  Timing: the loop returns when its
+    last call returns, and that call began no later than the deadline (or is the very first one) —
+    i.e. by the deadline plus the duration of one `_net_update()` call. -/
+theorem C13_believed (f dl : Nat) (s s' : NetState) (res : Bool) (obs : List UpdObs)
+    (hs : s.cur ∈ s.active) (h : nexec (ackWaitT f dl) s = (.ok (res, obs), s')) :
+    ∃ init last, obs = init ++ [last] ∧ Linked s.w.clock obs s'.w.clock ∧
+      (∀ o ∈ init, o.ret ≠ NETWORK_ACK ∧ o.stop ≤ dl) ∧
+      (res = true → last.ret = NETWORK_ACK ∧
+        ∃ b ∈ last.reads, IsAckFor s.node.a.addr s.node.cfg.allowMulticast b) ∧
+      (res = false → last.ret ≠ NETWORK_ACK ∧ dl < last.stop) ∧
+      s'.w.clock = last.stop ∧ (last.start ≤ dl ∨ last.start = s.w.clock) := by
+  obtain ⟨init, last, e, hl, hi, ht, hf⟩ := ackWaitT_spec f dl s s' res obs hs h
+  refine ⟨init, last, e, hl, hi, ht, hf, ?_⟩
+  rw [e] at hl
+  obtain ⟨h1, h2⟩ := linked_last init last _ _ hl
+  refine ⟨h1, ?_⟩
+  rw [h2]
+  cases hg : init.getLast? with
+  | none => right; rfl
+  | some p => left; exact (hi p (List.mem_of_getLast? hg)).2
+
+/-- non-vacuity (executed on the model, open system): with nothing arriving the loop says `False`
+    after its first call, past the deadline; with a NETWORK_ACK for the node waiting in the RX FIFO
+    it says `True`, having read exactly that frame -/
+example : Example.sNone.cur ∈ Example.sNone.active ∧
+    (∃ s', nexec (ackWaitT 3 0) Example.sNone = (.ok (false, [⟨0, [], 0, 10000⟩]), s')) ∧
+    Example.sAck.cur ∈ Example.sAck.active ∧
+    (∃ s', nexec (ackWaitT 3 1000000000) Example.sAck =
+      (.ok (true, [⟨0, [Example.ackFrame], 193, 30000⟩]), s')) :=
+  ⟨by decide, Example.run_none, by decide, Example.run_ack⟩
+
+/-- **`write()` in the wait case.**  If `_write` was called as the origin of a frame of a type in
+    65..191 whose first hop is not `write_direct` (send type `TX_NORMAL`; `TX_LOGICAL` can be named
+    but never satisfies the hop condition), and returns normally with `res`, then either the first
+    hop refused the frame (`res = False`, no wait), or it accepted it, listening was restored, and
+    `res` is the verdict of the wait loop with deadline `route_timeout·10⁶` ns after that instant —
+    so `res = True` ⇒ a NETWORK_ACK frame for the sender was read before the loop ended, in a
+    `_net_update()` call begun no later than the deadline; `res = False` ⇒ the sender's clock is
+    past the deadline. -/
+theorem C13_believed_write (f wd st t : Nat) (s s' : NetState) (res : Bool) (hs : s.cur ∈ s.active)
+    (ht : s.node.frameBuf.header.msgType = .int t) (hty : AckType t)
+    (hhop : (logi2phys s.node.a wd st).1 ≠ wd) (hst : st = TX_NORMAL ∨ st = TX_LOGICAL)
+    (hw : nexec (nodeWrite (f + 1) wd st) s = (.ok res, s')) :
+    (res = false ∧ ∃ s1, nexec (nodeWriteToPipe f (logi2phys s.node.a wd st).1
+        (logi2phys s.node.a wd st).2.1 (logi2phys s.node.a wd st).2.2) (writePrelude s t wd st)
+          = (.ok false, s1)) ∨
+    ∃ s1 s2 obs, nexec (nodeWriteToPipe f (logi2phys s.node.a wd st).1
+        (logi2phys s.node.a wd st).2.1 (logi2phys s.node.a wd st).2.2) (writePrelude s t wd st)
+          = (.ok true, s1) ∧
+      nexec (do liftRf (Rf24.setListen true); liftRf (Rf24.setAutoAckAttr (.i 0x3E))) s1 = (.ok (), s2) ∧
+      nexec (ackWaitT f (s.node.routeTimeout * 1000000 + s2.w.clock)) s2 = (.ok (res, obs), s') ∧
+      ∃ init last, obs = init ++ [last] ∧
+        (∀ o ∈ init, o.ret ≠ NETWORK_ACK ∧ o.stop ≤ s.node.routeTimeout * 1000000 + s2.w.clock) ∧
+        (res = true → last.ret = NETWORK_ACK ∧
+          ∃ b ∈ last.reads, IsAckFor s.node.a.addr s.node.cfg.allowMulticast b) ∧
+        (res = false → s.node.routeTimeout * 1000000 + s2.w.clock < s'.w.clock) ∧
+        s'.w.clock = last.stop ∧
+        (last.start ≤ s.node.routeTimeout * 1000000 + s2.w.clock ∨ last.start = s2.w.clock) := by
+  rw [C13_when_step f wd st s t hs ht] at hw
+  rcases hp : nexec (nodeWriteToPipe f _ _ _) (writePrelude s t wd st) with ⟨r, s1⟩
+  rw [hp] at hw
+  have hpre : (writePrelude s t wd st).cur ∈ (writePrelude s t wd st).active := by
+    unfold writePrelude; split <;> exact hs
+  have hn : (writePrelude s t wd st).node = s.node := by
+    unfold writePrelude; split <;> rfl
+  cases r with
+  | error e => simp at hw
+  | ok result =>
+    have r1 : Rel Node.stat (writePrelude s t wd st) s1 :=
+      ((frameAt f).nodeWriteToPipe _ _ _).out _ _ s1 hpre hp
+    simp only [] at hw
+    cases result with
+    | false =>
+      left
+      simp only [Bool.false_eq_true, if_false, ackCont, nexec_bind] at hw
+      refine ⟨?_, s1, rfl⟩
+      -- the `none` continuation returns `result = false`
+      rcases h1 : nexec (liftRf (Rf24.setListen true)) s1 with ⟨r1', s2⟩
+      rw [h1] at hw
+      cases r1' with
+      | error e => simp at hw
+      | ok _ =>
+        simp only [nexec_ite, nexec_bind, nexec_pure] at hw
+        split at hw
+        · rcases h2 : nexec (liftRf (Rf24.setAutoAckAttr (.i 62))) s2 with ⟨r2, s3⟩
+          rw [h2] at hw
+          cases r2 with
+          | error e => simp at hw
+          | ok _ => simp only [Prod.mk.injEq, Except.ok.injEq] at hw; exact hw.1.symm
+        · simp only [Prod.mk.injEq, Except.ok.injEq] at hw; exact hw.1.symm
+    | true =>
+      right
+      have hact : ackAction s.node.a t wd st s1.node.frameBuf.header.fromNode = .await := by
+        unfold ackAction
+        unfold AckType at hty
+        have h1 : 64 < t ∧ t < 192 := by omega
+        have h2 : ¬ st = TX_ROUTED := by rcases hst with h | h <;> rw [h] <;> decide
+        simp only [h1, and_self, if_true, h2, false_and, if_false, ne_eq, hhop, not_false_eq_true, hst]
+      simp only [if_true, hact, ackCont] at hw
+      obtain ⟨n, s1', h1, hw⟩ := nexec_bind_ok.mp hw
+      simp only [nexec_getNode, Prod.mk.injEq, Except.ok.injEq] at h1
+      obtain ⟨rfl, rfl⟩ := h1
+      obtain ⟨_, sa, h2, hw⟩ := nexec_bind_ok.mp hw
+      obtain ⟨_, s2, h3, hw⟩ := nexec_bind_ok.mp hw
+      obtain ⟨now, s2', h4, hw⟩ := nexec_bind_ok.mp hw
+      simp only [nexec_nowNs, Prod.mk.injEq, Except.ok.injEq] at h4
+      obtain ⟨rfl, rfl⟩ := h4
+      have hrt : s1.node.routeTimeout = s.node.routeTimeout := by
+        have := congrArg NodeStat.routeTimeout r1.proj
+        rw [hn] at this; exact this
+      rw [hrt] at hw
+      obtain ⟨obs, hobs⟩ := ackWait_ok_iff.mp hw
+      have hrf : ∀ {α : Type} (m : DrvM α), Frm (Rel Node.stat) (liftRf m) :=
+        fun m => Frm.liftRf m fun _ _ => rfl
+      have r1a : Rel Node.stat s1 sa := (hrf _).out s1 _ sa (r1.ok hpre) h2
+      have r12 : Rel Node.stat s1 s2 := r1a.trans ((hrf _).out sa _ s2 (r1a.ok (r1.ok hpre)) h3)
+      have r02 := r1.trans r12
+      have hs2 := r02.ok hpre
+      obtain ⟨init, last, e, _, hi, htr, hfa, hclk, hstart⟩ :=
+        C13_believed f _ s2 s' res obs hs2 hobs
+      have ha := stat_addr r02
+      rw [hn] at ha
+      refine ⟨s1, s2, obs, rfl, ?_, hobs, init, last, e, hi, ?_, ?_, hclk, hstart⟩
+      · rw [nexec_bind, h2]; exact h3
+      · intro hr
+        obtain ⟨h5, b, hb, hack⟩ := htr hr
+        refine ⟨h5, b, hb, ?_⟩
+        rw [← ha.1, ← ha.2]; exact hack
+      · intro hr
+        rw [hclk]; exact (hfa hr).2
+
+/-- non-vacuity of the static hypotheses: the master, about to send a type-100 frame to its
+    grandchild `0o11` (first hop `0o1`), is in the wait case -/
+example : let s : NetState := { nodes := [{ a := nodeSpec [], frameBuf := ⟨{ msgType := .int 100 }, []⟩ }],
+                                active := [0], w := World.fresh 1 }
+    s.cur ∈ s.active ∧ s.node.frameBuf.header.msgType = .int 100 ∧ AckType 100 ∧
+    (logi2phys s.node.a 0o11 TX_NORMAL).1 = 0o1 ∧ (logi2phys s.node.a 0o11 TX_NORMAL).1 ≠ 0o11 := by decide
+
+/-! ## live: the acknowledgement comes back (two hops) -/
+
+/-- **Liveness over a two-hop route** — closed system with the schedule of `runOthers`, loss-free
+    (`faults = []` is part of `NetOk`), under the driver contracts `L3Contracts`.  In a tree network in
+    which every node listens on its tree addresses (`NetOk`), nobody has address `0o4444`, all RX FIFOs
+    are empty and no radio has received anything yet, node `a` (tree node `x`) writes a single-frame
+    message of a user type in 65..127 for `d`, whose route is `x — y — d` with `y` and `d` present
+    (`r`, `jd`), and the destination's queue accepts the frame.  Then:
+    the first hop accepts the frame; inside the first `read()` of the origin's wait loop the router
+    `y` runs — reads the frame, pauses 2 ms, delivers it to `d`, turns it into a NETWORK_ACK for `x`
+    and sends it (the destination taking its frame at the scheduling point of that transmission) —;
+    the origin reads the NETWORK_ACK, `_net_update()` returns 193, and **`write()` returns `True`**;
+    moreover the destination's queue has gained exactly that message and no other queue changed.
+
+    Missing for the general `C13_live` (hence `_partial`): routes of 3..8 hops (the induction over the
+    route needs, per router, the nested run of its successor *and* the later relay of the returning
+    NETWORK_ACK found in its own RX FIFO; the two-hop case has neither a relay nor a second level of
+    nesting); schedules other than `runOthers`; system types 128..191; radios that received frames
+    before (`lastRx`, the PID sequence). -/
+theorem C13_live_partial (hc : L3Contracts) (cfg : AddrCfg) (hcfg : CfgOk cfg) (L : LinkCfg)
+    (tree : Nat → List Nat) (s : NetState) (a r jd : Nat) (x y d : List Nat) (ty : Int) (msg : Bytes)
+    (hok : NetOk cfg L tree s) (hcur : s.cur = a) (hact : s.active = [a])
+    (ha : a < s.nodes.length) (hr : r < s.nodes.length) (hjd : jd < s.nodes.length)
+    (hsize : s.nodes.length ≤ 20000) (hndef : ∀ i, val (tree i) ≠ NETWORK_DEFAULT_ADDR)
+    (hta : tree a = x) (htr : tree r = y) (htd : tree jd = d)
+    (hy1 : nextHopSpec x d = y) (hy2 : nextHopSpec y d = d) (hxd : x ≠ d) (hyd : y ≠ d)
+    (hquiet : ∀ i, i < s.nodes.length → (s.radioAt i).rxFifo = [])
+    (hlast : ∀ i, i < s.nodes.length → (s.radioAt i).lastRx = none)
+    (hty : 65 ≤ ty ∧ ty ≤ 127) (hlen : msg.length ≤ MAX_FRAG_SIZE)
+    (hmax : msg.length ≤ (s.nodeAt a).maxMessageLength)
+    (hacc : Accepts (s.nodeAt jd).queue (wireCopy (callerFrame x d s.nextId ty msg))) :
+    AckType ty.toNat ∧ originRule x d ty.toNat = .await ∧ forwarderRule y x d ty.toNat = .emit ∧
+    ∃ s1, nexec (apiNetWrite (val d) ty msg AUTO_ROUTING) s =
+        (.ok (true, callerFrame x d s.nextId ty msg), s1) ∧
+      DeliveredOnce s.nodes s1.nodes jd (val x) ty.toNat msg := by
+  have hat : AckType ty.toNat := by unfold AckType; omega
+  have hxy : x ≠ y := by rw [← hy1]; exact fun e => nextHop_ne_self hxd e.symm
+  refine ⟨hat, ?_, ?_, live_two_hops hc cfg hcfg L tree s a r jd x y d ty msg hok hcur hact ha hr hjd hsize hndef
+    hta htr htd hy1 hy2 hxd hyd hquiet hlast hty hlen hmax hacc⟩
+  · unfold originRule
+    rw [if_pos ⟨hat, by rw [hy1]; exact hyd⟩]
+  · unfold forwarderRule
+    rw [if_pos ⟨hat, hy2, hxy⟩]
+
+/-- non-vacuity: every hypothesis other than the driver contracts holds for the concrete chain
+    `0o0 — 0o1 — 0o11` of `NrfProofs/C05Example3.lean`, the grandchild writing `[9, 8, 7]` with type 100
+    to the master (running the model: `True`, air log data → data → NETWORK_ACK, master's queue
+    holds the message) -/
+example (hc : L3Contracts) : ∃ s1,
+    nexec (apiNetWrite (val []) 100 [9, 8, 7] AUTO_ROUTING) Example.three =
+      (.ok (true, callerFrame [1, 1] [] 6 100 [9, 8, 7]), s1) ∧
+    DeliveredOnce Example.three.nodes s1.nodes 0 (val [1, 1]) 100 [9, 8, 7] :=
+  (C13_live_partial hc {} (by decide) Example.L Example.tree3 Example.three 2 1 0 [1, 1] [1] [] 100 [9, 8, 7]
+    Example.three_ok rfl rfl (by decide) (by decide) (by decide) (by decide)
+    (by
+      intro i
+      match i with
+      | 0 => decide
+      | 1 => decide
+      | 2 => decide
+      | n + 3 =>
+        show val [5, 5, 5, 5 - n % 4] ≠ 0o4444
+        simp only [val]
+        omega)
+    rfl rfl rfl (by decide) (by decide) (by decide) (by decide)
+    (by
+      intro i hi
+      have hi' : i < 3 := hi
+      have : i = 0 ∨ i = 1 ∨ i = 2 := by omega
+      rcases this with rfl | rfl | rfl <;> decide)
+    (by
+      intro i hi
+      have hi' : i < 3 := hi
+      have : i = 0 ∨ i = 1 ∨ i = 2 := by omega
+      rcases this with rfl | rfl | rfl <;> decide)
+    (by decide) (by decide) (by decide)
+    ⟨by decide, by intro g hg; cases hg⟩).2.2.2
 
 end Nrf.Props.C13
